@@ -11,6 +11,8 @@
 (*        cannot continue any viable prefix (PrefLang fixpoint), or the    *)
 (*        first byte no term matches; nothing on success                   *)
 (*   C06  positions stay inside the input; stacks stay in sync             *)
+(*   C05  for operator grammars the result tree is the one the readme's    *)
+(*        four precedence rules define at tree level (no table involved)   *)
 (***************************************************************************)
 EXTENDS Tables
 
@@ -77,6 +79,46 @@ ResultIsDerivationTree ==
      /\ A[g].R[nodes[vals[1] + 1].sym + 1].l = Gs[g].root
      /\ Yield(nodes, vals[1]) = Toks(g, inp, 0, <<>>)[2]
      /\ TreeIds(nodes, vals[1]) = 0..(Len(nodes) - 1)        \* every functor call made is a node of the result, once
+
+\* C05: the readme's four rules read at the level of the RESULT TREE, for operator grammars (one nonterminal X; every rule
+\* is  X -> X t X  (binary),  X -> t X  (prefix), or neither starts nor ends with X).  No table, no item sets, no states:
+\*   (1) a binary/prefix node whose yield is followed by a binary operator t was reduced although t could have been
+\*       shifted:  the rules must prefer the reduction of its rule over t;
+\*   (2) a binary (prefix) node whose right (only) operand is itself a binary node with operator t2 shifted t2 although
+\*       its own rule could have been reduced:  the rules must NOT prefer the reduction over t2.
+\* Among the derivation trees of an input (ResultIsTreeOfTheInput) exactly one satisfies (1) and (2).
+IsBin(rr) == Len(rr.r) = 3 /\ rr.r[1] = rr.l /\ rr.r[3] = rr.l /\ IsT(rr.r[2])
+IsPre(rr) == Len(rr.r) = 2 /\ IsT(rr.r[1]) /\ rr.r[2] = rr.l
+OpGrammar(gg) == LET G == Gs[gg] IN
+  /\ NoErrRules(gg) /\ Len(G.rules) > 0
+  /\ \A i \in 1..Len(G.rules) : LET rr == G.rules[i] IN
+        /\ rr.l = G.root /\ rr.r # <<>>
+        /\ \A k \in 1..Len(rr.r) : IsT(rr.r[k]) \/ rr.r[k] = G.root
+        /\ IsBin(rr) \/ IsPre(rr) \/ (rr.r[1] # rr.l /\ rr.r[Len(rr.r)] # rr.l)
+BinOps(gg) == {Gs[gg].rules[i].r[2] : i \in {j \in 1..Len(Gs[gg].rules) : IsBin(Gs[gg].rules[j])}}
+NodeRule(gg, ns, id) == A[gg].R[ns[id + 1].sym + 1]
+IsNodeOf(gg, ns, id, P(_)) == ns[id + 1].k = 1 /\ P(NodeRule(gg, ns, id))
+RECURSIVE ShapeOK(_, _, _, _)
+ShapeOK(gg, ns, id, nxt) ==        \* nxt: the token that follows this subtree's yield in the input (-1: the end)
+  \/ ns[id + 1].k = 0
+  \/ LET rr == NodeRule(gg, ns, id)
+         ch == ns[id + 1].ch
+         RECURSIVE After(_)
+         After(i) == IF i >= Len(ch) THEN nxt ELSE LET y == Yield(ns, ch[i + 1]) IN IF y = <<>> THEN After(i + 1) ELSE y[1]
+     IN /\ \A i \in 1..Len(ch) : ShapeOK(gg, ns, ch[i], After(i))
+        /\ ((IsBin(rr) \/ IsPre(rr)) /\ nxt \in BinOps(gg)) => PreferReduce(Gs[gg], rr, nxt)
+        /\ (IsBin(rr) /\ IsNodeOf(gg, ns, ch[3], IsBin)) => ~PreferReduce(Gs[gg], rr, NodeRule(gg, ns, ch[3]).r[2])
+        /\ (IsPre(rr) /\ IsNodeOf(gg, ns, ch[2], IsBin)) => ~PreferReduce(Gs[gg], rr, NodeRule(gg, ns, ch[2]).r[2])
+OpGram == TLCEval([gg \in 1..NG |-> OpGrammar(gg)])
+PrecedenceShapesTheTree ==
+  (status = "acc" /\ OpGram[g]) =>
+     /\ Len(vals) = 1
+     /\ IsDeriv(g, nodes, vals[1])
+     /\ Yield(nodes, vals[1]) = Toks(g, inp, 0, <<>>)[2]
+     /\ ShapeOK(g, nodes, vals[1], -1)
+\* ... and resolution by precedence loses no sentence of an operator grammar: every derivable token string is accepted
+OperatorGrammarAcceptsItsLanguage ==
+  (Done /\ OpGram[g]) => LET tk == Toks(g, inp, 0, <<>>) IN (status = "acc") <=> (tk[1] /\ tk[2] \in LangOf[g])
 
 \* C09
 \* index of the first token whose prefix is not viable (eof counts as token Len+1 when `eofToo'); 0 if none
